@@ -57,7 +57,7 @@ def same_prefix(ctx, rule):
     if not ctx.check(len(pfx) == 1, rule, fn, "prefix", "one common-prefix length"):
         return
     d = [q.value_shape(b, pfx[0], roles)]
-    ctx.check(d == ["Option::map_or(utils::find_common_prefix_of_sorted_vec(var:Vec<Cow<[&str]>>),0,%s(slice::len(p1)))" % LAM], rule, fn, "prefix:def",
+    ctx.check(d == ["Option::map_or(utils::find_common_prefix_of_sorted_vec(var:Vec<Cow<[&str]>>),0,fn:slice::len)"], rule, fn, "prefix:def",
               "the prefix length is the length of the common prefix found by the helper (0 when there is none), with no arithmetic on it", detail=str(d))
     r = dict(roles)
     r[pfx[0]] = "prefix"
@@ -72,7 +72,7 @@ def same_prefix(ctx, rule):
     aggs = sorted(q.shape(b.expr_of_rvalue(s["rv"]), r) for bi, si, s, it in b.locations() if not it and s["k"] == "assign" and s["rv"]["k"] == "agg" and s["rv"].get("adt", "").endswith("Cow"))
     ctx.check(aggs == ["Cow::Borrowed{0:base_path}", "Cow::Borrowed{0:target_path}"], rule, fn, "items", "the helper is given exactly the target and base component lists", detail=str(aggs))
     srt = [q.shape(b.expr_of_call(t), r) for bi, t in b.calls() if q.nice(t.get("callee")) in ("slice::sort_by_key", "slice::sort_unstable_by_key")]
-    ctx.check(len(srt) == 1 and q.wild("slice::sort*_by_key(*,%s(*len(p1)))" % LAM, srt[0]), rule, fn, "sorted-by-len", "the lists are ordered by length before the helper runs (it indexes the first as the shortest)", detail=str(srt))
+    ctx.check(len(srt) == 1 and q.wild("slice::sort*_by_key(*,fn:*len)", srt[0]), rule, fn, "sorted-by-len", "the lists are ordered by length before the helper runs (it indexes the first as the shortest)", detail=str(srt))
     h = ctx.body(HELP)
     sl = [q.shape(hb.expr_of_call(t)).replace("^", "") for hb in [h] + list(ctx.facts.closures_of(HELP)) for bi, t in q.calls_to(hb, "Index::index")]
     lead = [x for x in sl if q.wild("arg1[0][RangeToInclusive{end:*}]", x)]
